@@ -412,11 +412,23 @@ pub fn run(prop: &str, tier: &str, replay: Option<&str>) -> i32 {
                 let ca = p.self_signed(&ca_kp)?;
                 let leaf = to_params(&leaf_state(&KeyIdSpec::Sha256)).unwrap().signed_by(&leaf_kp, &ca, &ca_kp)?;
                 let leaf2 = issue_via_csr(&leaf_kp, &ca, &ca_kp)?;
-                Ok::<_, rcgen::Error>((leaf.der().to_vec(), leaf2))
+                Ok::<_, rcgen::Error>((leaf.der().to_vec(), leaf2, ca.der().to_vec(), ca.key_identifier()))
             });
             out.transitions += 36;
             match r {
-                Ok(Ok((leaf_der, leaf2_der))) => {
+                Ok(Ok((leaf_der, leaf2_der, ca2_der, ca2_kid))) => {
+                    // the CA re-issued from the imported parameters identifies itself as the original did
+                    if c.1 > 0 {
+                        let ski2 = decode_cert(&ca2_der).value.and_then(|a| {
+                            a.extensions.iter().flatten().find_map(|e| match &e.parsed {
+                                ExtVal::Ski(k) => Some(k.clone()),
+                                _ => None,
+                            })
+                        });
+                        if ski2.as_deref() != Some(ski.as_slice()) || ca2_kid != ski {
+                            f.push(Finding::new("IMPORT-REISSUE-SKI", "re-issued CA", format!("the original CA carries the subject key identifier {:02x?}; the CA re-issued from the imported parameters carries {:02x?} (key_identifier() {:02x?})", ski, ski2, ca2_kid)));
+                        }
+                    }
                     judge_chain(&leaf_der, &ca_der, c.1 > 0, true, true, &mut f);
                     let mut f2 = Vec::new();
                     judge_chain(&leaf2_der, &ca_der, c.1 > 0, true, true, &mut f2);
